@@ -208,8 +208,14 @@ def strategy(tier):
             ops = draw(st.lists(op, min_size=draw(st.sampled_from([1, 4, 8])), max_size=maxops))
             return {"variant": variant, "via": via, "cls": vcls + "/" + wcls, "ops": ops}
         # timestamped: periods  observations.. [early] [end, observations after closing..] [init]
-        clock = draw(st.sampled_from(["float", "float", "int", "offset"]))
-        if clock == "int":
+        clock = draw(st.sampled_from(["float", "float", "int", "offset", "bigint"]))
+        if clock == "bigint" and via != "register":
+            clock = "int"      # notify() documents float timestamps (it converts them): no exactness beyond 2**53 there
+        if clock == "bigint":
+            # integer ticks beyond 2**53 (epoch nanoseconds): exact as ints, not representable as floats
+            t0 = 2 ** 60 + draw(st.integers(0, 1000))
+            wgt = st.integers(0, 300)
+        elif clock == "int":
             t0 = draw(st.integers(-100, 100))
         elif clock == "offset":
             t0 = _hx((10.0 ** draw(st.integers(3, 12))) * draw(st.sampled_from([1.0, -1.0])))
@@ -234,6 +240,10 @@ def strategy(tier):
             if draw(st.booleans()):
                 ops.append(draw(st.one_of(st.just(["init"]),
                                           st.sampled_from([_hx(0.0), _hx(-5.0), 3, t0]).map(lambda t: ["init", t]))))
+        if clock == "bigint":
+            # keep the timestamps exact ints: no float blocks / quantity operands / float restarts
+            ops = [o for o in ops if o[0] not in ("blk", "q") and not (o[0] == "init" and len(o) > 1 and
+                                                                        not isinstance(o[1], int))]
         if not ops:
             ops = [draw(rop)]
         return {"variant": variant, "via": via, "cls": vcls + "/" + wcls + "/" + clock, "t0": t0, "ops": ops}
